@@ -55,6 +55,7 @@ var mercRanges = [][2]string{
 	{"-1000", "1000"},
 	{"5000", "5000"},
 	{"-20", "-10"},
+	{"-1000", "-10"},
 	{"100", "200"},
 }
 
@@ -101,11 +102,14 @@ func mercRandScn(g *G, v int) *mercScn {
 	default:
 		s.window = big.NewInt(int64(g.R.Intn(100000)))
 	}
-	switch g.R.Intn(8) {
+	switch g.R.Intn(9) {
 	case 0:
 		s.mft = -1
 	case 1:
 		s.mft = int64(s.T) + int64(g.R.Intn(3)) - 1 // at / after now ⇒ overlap
+	case 2:
+		// the correct observers agree on a value below -1 (a server answering nonsense): not "no value exists"
+		s.mft = []int64{-2, -3, -1000, -mercMaxI64}[g.R.Intn(4)]
 	default:
 		s.mft = int64(s.T) - int64(1+g.R.Intn(1000))
 		if s.mft < -1 {
